@@ -83,13 +83,14 @@ class CaptureRegion:
                                  being presented.
         """
         read_start = current_position - len(chunk)
-        if (read_start <= self.offset <= current_position or
-                self.offset <= read_start <= (self.offset + self.length)):
-            if read_start < self.offset:
-                lead_gap = self.offset - read_start
-            else:
-                lead_gap = 0
-            self.data += chunk[lead_gap:]
+        # Only ever append the bytes that directly follow what we already
+        # hold, so that the captured data is always the contiguous content
+        # of the file starting at our offset. A region that is defined after
+        # its first bytes have gone by must not pick up later data as if it
+        # was its beginning.
+        wanted = self.offset + len(self.data)
+        if read_start <= wanted <= current_position:
+            self.data += chunk[wanted - read_start:]
             self.data = self.data[:self.length]
 
 
